@@ -42,6 +42,9 @@ def run(ctx, rep):
         check_sort(crate, rep, cfg)
         check_elem(crate, rep, cfg)
         check_enum(crate, rep, cfg)
+        # "maps print in sorted key order": the sort in format_map is by Key, whose integer order is KeyNumber::cmp (C15.KEYNUM, shared)
+        from props import c15
+        c15.check_keynum_ord(crate, rep, cfg)
 
 
 def check_cast(crate, rep, cfg):
